@@ -945,6 +945,11 @@ def run(ctx):
     ctx.attempt(r311, ctx)
     ctx.rule("R-3.15", "a job is drawn from a P matrix whose rows belong to the paths they are indexed by: the row sort of inf_retis is undone through the index array that sorted, kernel results land in their own windows (shared with C02 R-2.4 / R-2.5) - else a path with zero weight in an ensemble can be handed out for it", floor=5)
     from . import c02 as _c02
+    ctx.rule("R-3.18", "two live paths never carry one number after a restart: the path-number counter is stored back before the commit of the step and nothing the restart file serialises changes after it (shared with C05 R-5.1 and C08 R-8.8)", floor=2)
+    from . import c05 as _c05c
+    from .shared import RuleProxy as _RP3c, commit_is_final as _cif3
+    ctx.attempt(_c05c.r51, _RP3c(ctx, "R-3.18", " (restart.toml lists the new path with the old counter: after a crash the next accepted path gets the number, the load/<n> directory and the busy key of a live path - two jobs then hold 'the same' path)"))
+    ctx.attempt(_cif3, _RP3c(ctx, "R-3.18", " (identity keys of live paths derive from that state)"), "R-3.18")
     ctx.rule("R-3.17", "a re-issued job holds the ensembles it held before: the in-flight record pairs ensembles and paths position by position (shared with C08 R-8.13)", floor=2)
     from . import c08 as _c08b
     ctx.attempt(_c08b.r813, ctx, "R-3.17")
@@ -962,6 +967,7 @@ def run(ctx):
 
 
 VARIANTS = [
+    B("c03-counter-stored-back-after-the-commit", REPEX, '        self.config["current"]["traj_num"] = traj_num\n        self.cworker = md_items["pin"]', '        self.cworker = md_items["pin"]', "R-3.18", control=True, also=[(REPEX, "        self.write_toml()\n\n        return md_items", '        self.write_toml()\n        self.config["current"]["traj_num"] = traj_num\n\n        return md_items')], why="seeded C03_n"),
     B("c03-engines-released-per-requested-type-only", FACTORY, "    for eng_key in engine_occ.keys():\n        for i, occupied_by in enumerate(engine_occ[eng_key]):\n            if pin == occupied_by:", "    for eng_key in eng_names:\n        for i, occupied_by in enumerate(engine_occ[eng_key]):\n            if pin == occupied_by:", "R-3.6", why="seeded C05_m / C03_m"),
     B("c03-record-in-pick-order", REPEX, "        pat_nums = [str(i.path_number) for i in inp_trajs]\n", "        pat_nums = [str(traj.path_number)]\n        if len(inp_trajs) > 1:\n            pat_nums.append(str(other_traj.path_number))\n", "R-3.17", control=True, why="seeded C03_l (= C08_j)"),
     B("c03-resort-invalidates-only-when-list-nonempty", REPEX, "            ]\n        self._last_prob = None\n        self.prob\n\n    def lock(self, ens):", "            ]\n        if True in needstomove:\n            self._last_prob = None\n        self.prob\n\n    def lock(self, ens):", "R-3.16", control=True, why="seeded C03_k"),
